@@ -55,7 +55,9 @@ func VH_A_SearchPromisesCursor() {
 		vx.Assert(req == nil, "C14:refused-cursor-yields-no-request")
 		return
 	}
+	_ = promise.Pending
 	vx.Reach("accepted")
+	vx.Assert(vx.JwtOutcome() == "valid", "C14:cursor-whose-signature-does-not-verify-is-rejected")
 	vx.Assert(req != nil && req.Id != "" && len(req.States) > 0 && req.Limit >= 1 && req.Limit <= 100, "C14:accepted-cursor-is-a-valid-continuation")
 }
 
